@@ -38,7 +38,7 @@ def rand_out_port(rng):
     if vt:
         attrs['valid_type'] = vt
     if rng.random() < 0.2 and vt in (None, 'int', 'intstr'):
-        attrs['validator'] = 'v_not1'
+        attrs['validator'] = rng.choice(['v_not1', 'v_not1', 'v_not1_empty'])  # (the second refuses with an empty message)
     if rng.random() < 0.12:
         # a port for list values with a validator on their length (the emitted list may be filled further afterwards)
         attrs = {k: v for k, v in attrs.items() if k == 'required'}
